@@ -337,6 +337,16 @@ slab_fixed (int which)
         if (m == 0)
           for (int i = 0; bad_cost[i]; i++)
             all_ways (M_NT, "pw", bad_cost[i], 1, "cost-out-of-documented-range", rp, 1);
+        /* every two-digit bcrypt cost outside 04..31, for each subtype */
+        if (m >= M_BCRYPT_B && m <= M_BCRYPT_X)
+          for (int c = 0; c < 100; c++)
+            {
+              if (c >= 4 && c <= 31)
+                continue;
+              char bs[40];
+              snprintf (bs, sizeof bs, "%.3s$%02d$abcdefghijklmnopqrstuu", vh_methods[m].tag, c);
+              all_ways (m, "pw", bs, 1, "cost-out-of-documented-range", rp, c % 10 == 6);
+            }
         break;
       }
 }
